@@ -30,9 +30,9 @@ func c16Endpoint(key string, i int, tail int, kinds int) string {
 
 // HarnessC16Endpoint: an accepted endpoint is a URL the data plane can parse (buildClusterRESTConfig and the
 // dispatcher call net/url.Parse on it; net/url is executed from source) and its parsed scheme is the validated one.
-// verif:bounds one server; endpoint = http:// or https:// + <= 3 arbitrary bytes (quick) / 4 (thorough)
+// verif:bounds one server; endpoint = http:// or https:// + <= 2 arbitrary bytes (quick) / 3 (thorough)
 func HarnessC16Endpoint() {
-	servers := []proxyv1alpha1.UpstreamClusterServer{{Endpoint: c16Endpoint("ep", 0, vbound(3, 4), 2)}}
+	servers := []proxyv1alpha1.UpstreamClusterServer{{Endpoint: c16Endpoint("ep", 0, vbound(2, 3), 2)}}
 	_, scheme, errs := ValidateServers(servers, field.NewPath("spec"))
 	vobserve("nerrs", len(errs))
 	if len(errs) == 0 {
